@@ -62,6 +62,8 @@ def regenerate():
 
 PLAIN = [0x0000] + [0x0080 | rn | (st << 3) for rn in range(8) for st in (1, 2)] + [0x4380, 0x43C0]
 COND_PASS_AT_RESET = [0, 2, 3, 4, 7, 12, 13]     # true, neq, gt, ge, nn, nr, niu0 hold with all flags clear
+COND_FAIL_AT_RESET = [1, 5, 8, 9, 10, 11]        # eq, lt, c, v, e, l do not
+PLAIN_REG = [0x0080 | rn | (st << 3) for rn in range(8) for st in (1, 2)]   # modr rN+/-: flags other than fr untouched
 
 
 def program(rng):
@@ -76,7 +78,7 @@ def program(rng):
     vb = [rng.choice(PLAIN) for _ in range(rng.below(5))] + [rng.choice([0x45C0, 0x45D0])]
     for k, x in enumerate(vb):
         w[0x200 + k] = x
-    kind = rng.choice(["idle", "idle", "idle", "idle-late", "busy", "idle-cond"])
+    kind = rng.choice(["idle", "idle", "idle", "idle-late", "busy", "idle-cond", "cond-false"])
     pc = 0x100
     pre = [rng.choice(PLAIN) for _ in range(rng.below(6) if kind != "idle" else 0)]
     if kind == "idle-late":
@@ -84,7 +86,16 @@ def program(rng):
     for x in pre:
         w[pc] = x
         pc += 1
-    if kind == "busy":
+    if kind == "cond-false":
+        # a conditional self-branch whose condition does NOT hold falls through: it must not be taken for the idle loop
+        w[pc] = 0x57F0 | rng.choice(COND_FAIL_AT_RESET)
+        pc += 1
+        for _ in range(1 + rng.below(5)):
+            w[pc] = rng.choice(PLAIN_REG)
+            pc += 1
+        w[pc] = 0x57F0
+        w[pc + 1] = 0x57F0
+    elif kind == "busy":
         w[pc] = rng.choice(PLAIN)
         w[pc + 1] = 0x57E0                           # brr -2: a two-instruction loop that never idles
     else:
@@ -181,6 +192,8 @@ def case(rng, tier):
     segs = [rng.choice([1, 2, 5, 17, 60, 200, 700, rng.below(1500)]) for _ in range(nseg)]
     evs = [[host_event(rng) for _ in range(rng.below(3))] for _ in range(nseg - 1)]
     hows = rng.choice([("one", "ones"), ("one", "random"), ("random", "ones"), ("random", "random")])
+    if kind == "cond-false" and rng.chance(2, 3):
+        hows = ("one", "ones")       # a stale idle flag only shows inside one long call
     script = []
     for how in hows:
         script += seedless + prog + st
@@ -287,7 +300,7 @@ def explore(rng, tier, replay=None):
     for _ in range(n):
         scripts.append(case(rng, tier))
     ctx = corr.explore(PROP, scripts, judge=judge, signature=signature, inspect=inspect, model_first=True,
-                       rule="each case: one DSP program (main code ending in an idle self-branch - unconditional, conditional, "
+                       rule="each case: one DSP program (main code ending in an idle self-branch - unconditional, conditional (condition true; or false and falling through into further code), "
                             "reached after a prefix or right after `eint` - or a busy loop; int0/int1/int2 handlers and a vectored "
                             "handler ending in reti/retic), peripheral programming by host MMIO writes (both timers in single / "
                             "auto-restart / free-running mode with start values from 0 up, mirror and pause bits, ICU routing masks and "
